@@ -1,6 +1,7 @@
 '''C02 -- Index: unique labels, exact label-to-position bijection.'''
 import datetime
 import itertools
+import json
 
 import numpy as np
 
@@ -1141,4 +1142,8 @@ def cases(ctx):
                            py_fail=f'a reader of an existing index raised: {e}', tags={'stratum': gen.__name__})
                 break
             k += 1
+            # the identity of a case is its INPUT (stratum + calls + arguments), not what the implementation answered:
+            # a replay on a repaired tree then finds the case again and reports that it no longer fails
+            c.key = json.dumps([c.kind] + [[a, b] for a, b in sorted(c.desc.items()) if a not in ('observed', 'outcomes')],
+                               sort_keys=True, default=str)
             yield c
